@@ -9,6 +9,8 @@ return of every formula evaluation, entry and return of every `_C_`/`_R_` read
 [[global step, thread name], ...]; one schedule is one exactly repeatable
 execution.
 """
+import os
+import sys
 import threading
 
 from . import seams
@@ -19,8 +21,15 @@ class StepCap(BaseException):
 
 
 class Scheduler(seams.Listener):
-    def __init__(self, names, switches, step_cap=100000, first=None):
+    def __init__(self, names, switches, step_cap=100000, first=None, grain='cell', prefix=None):
+        """grain 'cell': yield points of cell-evaluation granularity only (seam listener);
+        grain 'line': in addition every line of pycel's own source (files below `prefix`)
+        executed by a controlled thread is a yield point (sys.settrace on that thread)"""
         self.names = list(names)
+        self.grain = grain
+        self.prefix = prefix
+        self.switch_sites = []   # where line-grained switches pre-empted ("file:function")
+        self.site_steps = None   # {"file:function": [steps]} when the caller asks for it
         self.switch_at = {}
         for step, name in switches:
             self.switch_at.setdefault(int(step), name)
@@ -56,8 +65,29 @@ class Scheduler(seams.Listener):
         if me in self.inside:
             self.inside[me] += d
 
+    # -- line granularity: every line of pycel source is a yield point -------------
+    def _tracer(self, frame, event, arg):
+        code = frame.f_code
+        if code.co_name == '<module>' or not code.co_filename.startswith(self.prefix):
+            return None
+        # One yield point per *change* of line within a frame.  CPython 3.12 reports the
+        # line of a caller a second time when a callee was inlined by the specialising
+        # interpreter (property getters, generators) - which depends on how often the code
+        # ran in this process before.  Ignoring a repeated report of the line a frame is
+        # already on makes the count a function of the control flow alone.
+        last = [None]
+
+        def line(frame, event, arg):
+            if event == 'line':
+                n = frame.f_lineno
+                if n != last[0]:
+                    last[0] = n
+                    self.yield_point('line', frame)
+            return line
+        return line
+
     # -- the baton ---------------------------------------------------------------
-    def yield_point(self, what):
+    def yield_point(self, what, frame=None):
         me = threading.current_thread().name
         if me not in self.inside:
             return                       # not a controlled thread (reference runs etc.)
@@ -70,11 +100,18 @@ class Scheduler(seams.Listener):
                 self.capped = True
                 raise StepCap(f'step cap {self.step_cap} exceeded')
             self.trace.append((self.step, me, what))
+            if self.site_steps is not None and frame is not None:
+                self.site_steps.setdefault(
+                    os.path.basename(frame.f_code.co_filename) + ':' + frame.f_code.co_name,
+                    []).append(self.step)
             nxt = self.switch_at.get(self.step)
             if nxt is not None and nxt != me and nxt in self.inside and nxt not in self.done:
                 self.switches_taken.append((self.step, me, nxt))
                 if self.inside.get(me, 0) > 0:
                     self.preempt_inside_eval += 1
+                if frame is not None:
+                    self.switch_sites.append(
+                        os.path.basename(frame.f_code.co_filename) + ':' + frame.f_code.co_name)
                 self.cur = nxt
                 self.cv.notify_all()
                 while self.cur != me:
@@ -91,7 +128,13 @@ class Scheduler(seams.Listener):
                 while self.cur != name:
                     self.cv.wait()
             try:
-                self.results[name] = ('ok', fn())
+                if self.grain == 'line':
+                    sys.settrace(self._tracer)
+                try:
+                    value = fn()
+                finally:
+                    sys.settrace(None)
+                self.results[name] = ('ok', value)
             except StepCap as exc:
                 self.results[name] = ('cap', str(exc))
             except BaseException as exc:   # noqa
